@@ -327,6 +327,8 @@ let step_preds : (string * (vconfig -> fstep -> bool)) list = [
   ("c05_zero_window_ok", c05_zero_window_ok);
   ("c05_rto_single_ok", c05_rto_single_ok);
   ("c05_monitor_ok", c05_monitor_ok);
+  ("c05_rto_exit_ok", c05_rto_exit_ok);
+  ("c06_no_resend_acked", c06_no_resend_acked);
   ("c05_zero_window_strict", c05_zero_window_strict);
   ("c05_d16_class_neg", (fun c st -> not (c05_d16_class c st)));
   ("c05_zero_window_strict_or_d16", (fun c st -> c05_zero_window_strict c st || c05_d16_class c st));
@@ -355,6 +357,7 @@ let step_preds : (string * (vconfig -> fstep -> bool)) list = [
 let trace_preds : (string * (vconfig -> fstep list -> bool)) list = [
   ("c10_step_ok", c10_step_ok);
   ("c04_vsock_ack_ok", c04_vsock_ack_ok);
+  ("c05_slow_start_ok", c05_slow_start_ok);
   ("c04_d19_class", c04_d19_class);
   ("c02_prompt", c02_prompt);
   ("c06_stable_plen_ok", c06_stable_plen_ok);
